@@ -29,7 +29,10 @@ func genConc(r *rand.Rand, cc ConcCfg, id int, prefix string) Program {
 	place := []string{"node", "segment", "global"}[r.Intn(3)]
 	p.Stores = []sopenv.StoreOpts{{Name: fmt.Sprintf("%s%d_s0", prefix, id), Slot: cc.Slot, Unique: true, Placement: place}}
 	seed := TxnSpec{Mode: "w", New: []int{0}, End: "commit"}
-	if !cc.Empty {
+	if cc.Workload == "create" {
+		// nobody creates the store beforehand: the concurrent transactions all call NewBtree on the same name
+		seed = TxnSpec{Mode: "w", End: "rollback"}
+	} else if !cc.Empty {
 		for k := 1; k <= cc.Keys; k++ {
 			seed.Ops = append(seed.Ops, OpSpec{Op: "Add", Store: 0, K: k, V: "0"})
 		}
@@ -39,6 +42,14 @@ func genConc(r *rand.Rand, cc ConcCfg, id int, prefix string) Program {
 		t := TxnSpec{Mode: "w", Open: []int{0}, End: "commit"}
 		tag := fmt.Sprintf("c%d", ti+1)
 		switch cc.Workload {
+		case "create":
+			t.Open, t.New = nil, []int{0}
+			for i := 0; i < 1+r.Intn(3); i++ {
+				t.Ops = append(t.Ops, OpSpec{Op: "Add", Store: 0, K: 1 + ti + i*cc.Txns, V: fmt.Sprintf("%s.%d", tag, i)})
+			}
+			if r.Intn(4) == 0 {
+				t.End = "rollback"
+			}
 		case "disjoint":
 			n := 1 + r.Intn(4)
 			for i := 0; i < n; i++ {
@@ -104,7 +115,7 @@ func runConc(cfg Config) {
 		hub := decor.NewHub()
 		env := sopenv.New(folder, hub)
 		hub.Record = bf != nil && cc.Sched == "gate"
-		r := &Runner{Env: env, Rec: &Recorder{}, MaxTime: time.Duration(envInt("VERIF_MAXTIME_MS", 30000)) * time.Millisecond, NoReset: true, OpGate: cc.Sched == "gate"}
+		r := &Runner{Env: env, Rec: &Recorder{}, MaxTime: time.Duration(envInt("VERIF_MAXTIME_MS", 30000)) * time.Millisecond, NoReset: true, OpGate: cc.Sched == "gate", Deadline: true}
 		if _, err := r.RunTxn(ctx, "t0", &p, p.Txns[0], nil); err != nil {
 			r.Rec.Add(Ev{Ev: "HarnessError", Note: errs(err)})
 		}
